@@ -17,10 +17,10 @@ CFG = {'lean_modules': ['ObiVerif.Props.C11'],
          '2-letter alphabet giving many hits) with 0..3 planted site pairs in either orientation carrying 0..e+1 substitutions each, gap -3..25 (0, 1 and '
          'negative gaps forced in 3 cases out of 10; on circular templates also gaps that make the product as long as the circle), at offset 0 / at the end / '
          'wrapping the origin in a fixed fraction of the cases; min/max chosen around a planted gap (g,g / g+1,0 / 0,g-1 / 0,g+k / random); extension in '
-         '{-1,0,1,2,3,5,10,30}; window-edge cases (150 / 400): primers of unequal length, the complemented site of the last direct hit as far as max length '
+         '{-1,0,1,2,3,5,10,30}; window-edge cases (150 / 300): primers of unequal length, the complemented site of the last direct hit as far as max length '
          'allows (gap in max-|lf-lr| .. max), either orientation; frag: generic obiiter.IFragments parameters then PCRSlice over the fragments; cli: '
          'obipcr.CLIPCR (options set through the verif hook) — --fragmented on templates of more than 1000 x max length with products of maximal length '
-         'planted just before the fragment ends (also with extended-grammar primers and with --circular), and without --fragmented on 60 / 200 short linear or '
+         'planted just before the fragment ends (also with extended-grammar primers and with --circular), and without --fragmented on 60 / 150 short linear or '
          'circular templates with -l in {-2,0,g,g+1}, -L around the planted gap, --delta in {-3,-1,0,1,4,20}, --only-complete-flanking. non-trivial = distinct '
          'case other than an empty single template / a primer of 64 positions',
  'technique': 'Lean 4 theorems on a transcription of _Pcr over the proved matcher model of C10 and the proved Subsequence / reverse-complement model of C07 + '
@@ -29,8 +29,8 @@ CFG = {'lean_modules': ['ObiVerif.Props.C11'],
               'documented primer grammar (classes, negations, obligatory positions; IUPAC table and reverse complement written in the harness), annotations of '
               'every amplicon (forward_primer, reverse_primer, direction, types of the match / error attributes, annotations inherited from the template), '
               'number of reports of each amplicon in fragmented mode = number of pieces containing it, and three relations between real runs '
-              '(reverse-complemented templates, rotated circular templates — 3 origins per case in quick, 12 in thorough and every origin for one case out of '
-              '8 —, each template alone vs in its batch)',
+              '(reverse-complemented templates, rotated circular templates — 3 origins per case in quick; in thorough 12 origins for one case out of 8 and every '
+              'origin for one case out of 80, one out of 8 on circles of at most 80 symbols —, each template alone vs in its batch)',
  'level_text': 'Proved for every LINEAR template, every primer pair of 1..63 positions each (IUPAC classes, [..] classes, negations, obligatory positions; the '
                'two primers may have different lengths), every budget, every min/max/extension/only-full setting: pcr_total (no log.Fatalf, no panic), '
                'pcr_sound (every reported record is mkAmp of a site of one primer and a site of the complement of the other one located downstream, at least '
